@@ -313,7 +313,8 @@ func runHistory(sc *Scenario, oc *oracleCache, keepLog bool, compareNR bool) *Ru
 	for i := range ops {
 		op := &ops[i]
 		want := oc.get(op, sc.LL, "fresh")
-		if want.Panic != "" && op.Fault == nil {
+		llAfterFault := sc.Property == "C11" && strings.HasPrefix(op.Kind, "ll_") && op.Fault == nil
+		if want.Panic != "" && op.Fault == nil && !llAfterFault {
 			// the library itself panics on this input even with fresh objects: an input-only matter (C06/C07),
 			// excluded from histories
 			rep.Excluded++
